@@ -185,8 +185,9 @@ def judge(w, mod: Any, item: Dict[str, Any], twin: exprs.Twin, kwargs: Dict[str,
                     # a sub-expression inside a comprehension scope / f-string that does not depend on the loop variables
                     try:
                         truths.append(eval(key, env_for_eval))  # pylint: disable=eval-used
-                    except BaseException:  # pylint: disable=broad-except
-                        pass
+                    except BaseException as oracle_err:  # pylint: disable=broad-except
+                        # Python itself cannot compute this sub-expression: no value may be shown for it
+                        detail.setdefault("python_raises", {})[key] = "{}: {}".format(type(oracle_err).__name__, oracle_err)
                 elif key in all_kwargs:
                     truths.append(all_kwargs[key])
                 else:
@@ -224,7 +225,13 @@ def judge(w, mod: Any, item: Dict[str, Any], twin: exprs.Twin, kwargs: Dict[str,
             continue
         want = {a_repr.repr(v) for v in truths}
         if vstr not in want:
-            w.violation(classify(item, key, "wrong-value", twin, vstr), "`{} was {}` but Python computes {}".format(key, vstr[:120], sorted(want)[:3]), case, detail)
+            vkey = classify(item, key, "wrong-value", twin, vstr)
+            if "multiple values for keyword argument" in detail.get("python_raises", {}).get(key, ""):
+                # mechanism: the re-computation merges **mapping into the keyword arguments without Python's duplicate check
+                vkey = "C06/duplicate-keyword-argument-merged-silently"
+            w.violation(vkey, "`{} was {}` but Python computes {}{}".format(
+                key, vstr[:120], sorted(want)[:3], " (it raises {})".format(detail["python_raises"][key]) if key in detail.get("python_raises", {}) else ""),
+                case, detail)
     # completeness
     none_bound = any(v is None for k, v in all_kwargs.items() if k in item["lam_params"]) or "G_NONE" in item["expr"]
     if none_bound:
